@@ -117,7 +117,7 @@ func wlStatus(cl *ckit.Cluster, wid string) string {
 }
 
 func runNodeDown(t *testing.T, c *ndCase, tag string) {
-	cl := ckit.NewCluster(t, ckit.Options{})
+	cl := newCluster(t, ckit.Options{})
 	defer cl.Close()
 	cl.Wipe()
 	pod := "p" + tag
@@ -410,10 +410,15 @@ func genNodeDown(t *testing.T, out *hx.Out, budget int) {
 		if i >= budget {
 			break
 		}
-		c := cases[i]
-		c.ID, c.Kind = fmt.Sprintf("nodedown-%d", i), "nodedown"
-		runNodeDown(t, &c, fmt.Sprintf("d%d", i))
-		out.Emit(c)
+		i := i
+		try := 0
+		emitGuarded(t, out, func() any {
+			try++
+			c := cases[i]
+			c.ID, c.Kind = fmt.Sprintf("nodedown-%d", i), "nodedown"
+			runNodeDown(t, &c, fmt.Sprintf("d%dt%d", i, try))
+			return c
+		})
 	}
 }
 
